@@ -19,7 +19,7 @@ timeout 600 go test -vet=off -count=1 -run 'ZZ|Demo' ./$dir/ > /tmp/mutc/results
 git apply $src/patch.diff; apply_rc=$?
 timeout 600 go test -vet=off -count=1 -run 'ZZ|Demo' ./$dir/ > /tmp/mutc/results/$name.mut.log 2>&1; mut_rc=$?
 rm -f $wt/$dir/zz_demo*_test.go $wt/$dir/*demo_test.go
-timeout 1500 go test -vet=off -count=1 -timeout 25m ./... > /tmp/mutc/results/$name.suite.log 2>&1; suite_rc=$?
+timeout 3400 go test -vet=off -count=1 -timeout 25m ./... > /tmp/mutc/results/$name.suite.log 2>&1; suite_rc=$?
 cd /
 git -C /repo worktree remove --force $wt
 echo "{\"name\":\"$name\",\"pkg\":\"$dir\",\"apply_rc\":$apply_rc,\"demo_clean_rc\":$clean_rc,\"demo_mut_rc\":$mut_rc,\"suite_mut_rc\":$suite_rc}" > /tmp/mutc/results/$name.json
